@@ -5,10 +5,10 @@ from harness import runner, tlc, isagen
 
 INV = ['SizeIsSum', 'StepsAreWholeBytes', 'Emit']
 ADDR = 16
-PAT = {'indn': (1, ['indnum']), 'regpp': (1, ['regspp']), 'any': (1, ['anyop']), 'num': (1, ['num8']), 'reg': (1, ['regs']), 'ind': (1, ['ind']), 'num2': (2, ['num8', 'num8'])}
-INVTXT = {'indn': 'mac [5]', 'regpp': 'mac r1++', 'sum': 'mac 3+2', 'bare': 'mac', 'lit': 'mac 5', 'fwd': 'mac fwd', 'back': 'mac back', 'reg': 'mac r1', 'ind': 'mac [r1+5]', 'lit2': 'mac 5, 9'}
-ARGTXT = {'indn': ['5'], 'regpp': [None], 'sum': ['3+2'], 'bare': [], 'lit': ['5'], 'fwd': ['fwd'], 'back': ['back'], 'lit2': ['5', '9'], 'ind': ['5'], 'reg': [None]}
-OPTXT = {'indn': ['[5]'], 'regpp': ['r1++'], 'sum': ['3+2'], 'bare': [], 'lit': ['5'], 'fwd': ['fwd'], 'back': ['back'], 'lit2': ['5', '9'], 'ind': ['[r1+5]'], 'reg': ['r1']}
+PAT = {'defn': (1, ['defnum']), 'idx': (1, ['idxreg']), 'indn': (1, ['indnum']), 'regpp': (1, ['regspp']), 'any': (1, ['anyop']), 'num': (1, ['num8']), 'reg': (1, ['regs']), 'ind': (1, ['ind']), 'num2': (2, ['num8', 'num8'])}
+INVTXT = {'defn': 'mac [[5]]', 'idx': 'mac r1 + 5', 'indn': 'mac [5]', 'regpp': 'mac r1++', 'sum': 'mac 3+2', 'bare': 'mac', 'lit': 'mac 5', 'fwd': 'mac fwd', 'back': 'mac back', 'reg': 'mac r1', 'ind': 'mac [r1+5]', 'lit2': 'mac 5, 9'}
+ARGTXT = {'defn': ['5'], 'idx': ['5'], 'indn': ['5'], 'regpp': [None], 'sum': ['3+2'], 'bare': [], 'lit': ['5'], 'fwd': ['fwd'], 'back': ['back'], 'lit2': ['5', '9'], 'ind': ['5'], 'reg': [None]}
+OPTXT = {'defn': ['[[5]]'], 'idx': ['r1 + 5'], 'indn': ['[5]'], 'regpp': ['r1++'], 'sum': ['3+2'], 'bare': [], 'lit': ['5'], 'fwd': ['fwd'], 'back': ['back'], 'lit2': ['5', '9'], 'ind': ['[r1+5]'], 'reg': ['r1']}
 
 
 def step_text(ins, ph, n):
@@ -33,7 +33,13 @@ def macro_isa(m):
         'regs': {'operand_values': {'rr1': {'type': 'register', 'register': 'r1', 'bytecode': {'value': 1, 'size': 4}},
                                     'rr2': {'type': 'register', 'register': 'r2', 'bytecode': {'value': 2, 'size': 4}}}},
         'indnum': {'operand_values': {'ix8': {'type': 'indirect_numeric', 'argument': arg(8)}}},
+        'defnum': {'operand_values': {'dx8': {'type': 'deferred_numeric', 'argument': arg(8)}}},
+        'idxreg': {'operand_values': {'xr1': {'type': 'indexed_register', 'register': 'r1', 'bytecode': {'value': 2, 'size': 4},
+                                              'index_operands': {'xri': {'type': 'numeric', 'argument': arg(8)}}}}},
         'numorind': {'operand_values': {'qn8': {'type': 'numeric', 'bytecode': {'value': 3, 'size': 4}, 'argument': arg(8)},
+                                        'qd8': {'type': 'deferred_numeric', 'bytecode': {'value': 5, 'size': 4}, 'argument': arg(8)},
+                                        'qx8': {'type': 'indexed_register', 'register': 'r1', 'bytecode': {'value': 2, 'size': 4},
+                                                'index_operands': {'qxi': {'type': 'numeric', 'argument': arg(8)}}},
                                         'qi8': {'type': 'indirect_numeric', 'bytecode': {'value': 1, 'size': 4}, 'argument': arg(8)}}},
         'regspp': {'operand_values': {'rp1': {'type': 'register', 'register': 'r1', 'bytecode': {'value': 3, 'size': 4},
                                               'decorator': {'type': 'plus_plus', 'is_prefix': False}}}},
